@@ -385,3 +385,47 @@ func TestC09(t *testing.T) {
 	rec.Require("nontrivial", "writer/reused-after-2-frames", "frame/zero-hash-block+blocksum", "frame/zero-hash-content+contentsum", "frame/raw+compressed-blocks", "frame/legacy-nonempty", "entry/creader", "entry/readfrom", "input/empty", "input/k*bs")
 	checkProp(t, "C09", "C09/conformance", pick(12000, 150000), drawC09, runC09)
 }
+
+// TestC09Huge (thorough only): a stream of more than 4 GiB through the Writer: the content
+// checksum (and the size field) must still be what the specification designates once the
+// total no longer fits 32 bits. The independent parser hashes and counts without retaining.
+func TestC09Huge(t *testing.T) {
+	rec := stat.For("C09")
+	rec.SetRule(c09Rule)
+	if !thorough() || shard != 0 {
+		return
+	}
+	const total = uint64(1)<<32 + 4<<20 + 43
+	for _, conc := range []int{1, 4} {
+		var sink inst.Sink
+		w := lz4.NewWriter(&sink)
+		if err := w.Apply(lz4.BlockSizeOption(lz4.Block4Mb), lz4.ChecksumOption(true), lz4.SizeOption(total), lz4.ConcurrencyOption(conc)); err != nil {
+			t.Fatalf("HARNESS: %v", err)
+		}
+		chunk := make([]byte, 1<<20)
+		for i := range chunk {
+			chunk[i] = byte(i >> 12) // long runs: compresses to a few KiB per block
+		}
+		left := total
+		for left > 0 {
+			n := uint64(len(chunk))
+			if n > left {
+				n = left
+			}
+			if _, err := w.Write(chunk[:n]); err != nil {
+				judge(t, "C09", "C09/huge", conc, stat.Failf("C09/huge/write-fails", "%v", err))
+			}
+			left -= n
+		}
+		if err := w.Close(); err != nil {
+			judge(t, "C09", "C09/huge", conc, stat.Failf("C09/huge/close-fails", "%v", err))
+		}
+		rec.Eval()
+		f := ref.ParseFrameDiscard(sink.Buf, ref.Strict)
+		if !f.OK() || f.Consumed != len(sink.Buf) || f.ContentLen != total {
+			judge(t, "C09", "C09/huge", conc, stat.Failf("C09/huge/not-a-valid-frame/"+firstWords(f.Err, 3), "concurrency %d, %d content bytes, frame of %d bytes: reference parser: %q at %d (content length %d, consumed %d)", conc, total, len(sink.Buf), f.Err, f.ErrOff, f.ContentLen, f.Consumed))
+		}
+		rec.NonTrivial(stat.FP("huge", conc))
+		rec.Class("frame/content>4GiB")
+	}
+}
